@@ -129,8 +129,11 @@ def sval(st):
     return st.ghost.get("ar_stoich", SV_ENTRY)
 
 
+ME_KEYS = {KEY}            # contract keys for which this module's hooks are active (c02_add_reactions_ctx adds its own)
+
+
 def _is_me(eng):
-    return getattr(eng.cur_contract, "key", None) == KEY
+    return getattr(eng.cur_contract, "key", None) in ME_KEYS
 
 
 def _model(eng):
@@ -230,7 +233,7 @@ def call_method_hook(eng, st, recv, name, pos, kw):
     return None
 
 
-def _apply_add_metabolites(eng, st, model, met):
+def _apply_add_metabolites(eng, st, model, met, pre=None):
     """self.add_metabolites(metabolite) for ONE metabolite whose identifier is not in the model: the contract `Model.add_metabolites`
     (proved in c02_add_metabolites for a list argument) applied to the one-element list the function wraps the metabolite into
     (`if not hasattr(metabolite_list, "__iter__"): metabolite_list = [metabolite_list]`: ASSUMED step).  Its precondition and the
@@ -242,8 +245,10 @@ def _apply_add_metabolites(eng, st, model, met):
     con = eng.reg.get("Model.add_metabolites")
     a = {"self": model, "metabolite_list": lst}
     E0 = Env(a, st1, eng=eng)
-    eng.oblige_split(st1, con.pre(E0), "call:Model.add_metabolites/pre", kind="callpre")
-    st1 = st1.assume(con.pre(E0))
+    # `pre`: a variant of the callee's precondition (c02_add_reactions_ctx: the same without `no context open`); default: the callee's own
+    pre_f = con.pre(E0) if pre is None else pre(con, E0)
+    eng.oblige_split(st1, pre_f, "call:Model.add_metabolites/pre", kind="callpre")
+    st1 = st1.assume(pre_f)
     eng.oblige(st1, z3.Not(AM._some_bad(E0)), "call:Model.add_metabolites/case-joining", kind="callpre")
     st1 = st1.assume(z3.Not(AM._some_bad(E0)))
     s2 = havoc_locations(eng, st1, [loc for loc in con.modifies(E0) if loc[0] != "attr"])
@@ -304,7 +309,19 @@ def _apply_add_metabolites(eng, st, model, met):
         ("model-pointers", FA([y], mo1[y] == z3.If(y == x, me, mo0[y]), patterns=[mo1[y]])),
         ("reaction-sets", FA([y, z], R1[y][z] == z3.If(y == x, z3.And(R0[y][z], mo0[z] == me), R0[y][z]), patterns=[R1[y][z]])),
     ]
+    if z3.is_quantifier(joins_x) and joins_x.is_exists() and joins_x.num_vars() == 1:
+        # the witness of `x joins` (position 0 of the one-element list) as a ground step first: under load the existential alone took
+        # 50 s in the larger context of c02_add_reactions_ctx
+        lemmas.insert(0, ("x-joins:witness", z3.substitute_vars(joins_x.body(), z3.IntVal(0))))
+        witnessed = True
+    else:
+        witnessed = False
     for nm_, f in lemmas:
+        if nm_ == "x-joins" and witnessed:
+            # `exists j. body(j)` follows from the obliged ground instance body(0) by exists-introduction (pure logic): assumed without a
+            # second query (left to the solver it took 36 s on a retry seed in the in-context state)
+            s2 = s2.assume(f)
+            continue
         eng.oblige(s2, f, f"call:Model.add_metabolites/lemma:{nm_}", kind="side")
         s2 = s2.assume(f)
     return [("ok", s2, NONE)]
